@@ -313,6 +313,7 @@ def run(repo: Repo, ctx) -> None:
     _r7(repo, ctx)
     _r8(repo, ctx)
     _r9(repo, ctx)
+    _r10(repo, ctx)
 
 
 TYPES = 'edb.pgsql.types'
@@ -655,6 +656,73 @@ def _r9(repo: Repo, ctx) -> None:
     if n < 3:
         raise AnalysisError(f'C05.R9: only {n} storage lookups in '
                             f'edb.pgsql.inheritance')
+
+
+def _r10(repo: Repo, ctx) -> None:
+    """C05.R10
+    (a) the pointer adapters drop a pointer's own table whenever it had one:
+        under the single assumption `types.has_table(<ptr>, orig_schema)` the
+        DropTable of `_delete_link` / `_delete_property` lies on every path
+        to the end of the function (it must not depend on the pointer being
+        concrete, on its source, ...: an abstract link has a table too).
+    (b) the backend command tree collects, in each of the three apply hooks
+        of MetaCommand, the commands of the *namesake* getter: commands
+        caused in descendants (how pointer DDL on a parent reaches existing
+        subtypes) are applied to the schema by the base class, and unless
+        `apply_caused` also collects `get_caused()` their SQL is never
+        emitted."""
+    from ..absint import Facts, must_pass
+    from ..cfg import CFG
+    ctx.floor('C05.R10', 4)
+    for cls, meth in (('LinkMetaCommand', '_delete_link'),
+                      ('PropertyMetaCommand', '_delete_property')):
+        f = repo.find_method(f'{PGD}.{cls}', meth)
+        if f is None:
+            raise AnalysisError(f'C05.R10: {cls}.{meth} not found')
+        ctx.saw(f)
+        g = CFG(f.node)
+        ptr = f.params()[1]
+        own = f'types.has_table({ptr}, orig_schema)'
+        drops = [n.id for n in g.nodes if n.kind == 'stmt' and n.ast is not
+                 None and any(isinstance(c, ast.Call) and norm(c.func) ==
+                              'dbops.DropTable' for c in ast.walk(n.ast))
+                 and any(t.kind == 'test' and own in norm(
+                     t.ast.test if hasattr(t.ast, 'test') else t.ast)
+                     and g.edge_dominates(t.id, 'T', n.id)
+                     for t in g.nodes)]
+        if not drops:
+            raise AnalysisError(f'C05.R10: {meth}: no DropTable under '
+                                f'`{own}`')
+        facts = {own: True,
+                 f"{ptr}.get_shortname(schema).name == '__type__'": False}
+        fx = Facts(facts, fn_node=f.node)
+        ok = must_pass(g, fx, drops)
+        ctx.ob('C05.R10', f'{cls}.{meth}:own-table-dropped', ok,
+               f'under `{own}` there is a path through {meth} that does not '
+               f'drop the pointer\'s table: CREATE made a table for every '
+               f'pointer for which has_table() holds (abstract links '
+               f'included), so that table outlives the pointer',
+               f.loc, sample=f'DropTable on every path under {own}')
+    mc = repo.cls(f'{PGD}.MetaCommand')
+    for kind, getter in (('prerequisites', 'get_prerequisites'),
+                         ('subcommands', 'get_subcommands'),
+                         ('caused', 'get_caused')):
+        f = mc.methods.get(f'apply_{kind}')
+        if f is None:
+            raise AnalysisError(f'C05.R10: MetaCommand.apply_{kind} not '
+                                f'found')
+        ctx.saw(f)
+        got = {c.func.attr for c in ast.walk(f.node)
+               if isinstance(c, ast.Call) and isinstance(
+                   c.func, ast.Attribute) and norm(c.func.value) == 'self'
+               and c.func.attr.startswith('get_')}
+        ctx.ob('C05.R10', f'MetaCommand.apply_{kind}:collects-{getter}',
+               getter in got and len(got) == 1,
+               f'MetaCommand.apply_{kind} collects {sorted(got)} into pgops '
+               f'instead of self.{getter}(): those commands are applied to '
+               f'the schema but their backend operations are never emitted '
+               f'(a property added to a parent type gets no column in the '
+               f'tables of existing subtypes)', f.loc, sample=getter)
 
 
 def _negated(test: ast.AST, node: ast.AST) -> bool:
